@@ -337,6 +337,20 @@ ROUTE(l1_s_from_ptr, out.put(ST::string::from_latin_1(P8));)
 ROUTE(l1_s_from_buf, ST::char_buffer b(P8); out.put(ST::string::from_latin_1(b));)
 ROUTE(l1_s_from_cstr, out.put(ST::string::from_latin_1(in.z8));)
 
+// ----------------------------------------------------------------------------- the 16-bit wchar_t template variants
+// On this platform wchar_t has 32 bits, so the default template argument selects the 32-bit variants above.  The
+// variants written for a 16-bit wchar_t (Windows) are reached by naming the template argument: they work on the
+// first size() 16-bit units of a wchar_t buffer, exactly what they would see on such a platform.  The same-width
+// copies (utf16_to_wchar<char16_t>, wchar_to_utf16<char16_t>) move size() wchar_t units and are left out.
+#define PW16 (const wchar_t *)in.p16, in.n16
+#define PUT16(expr) do { ST::wchar_buffer r16 = (expr); out.units((const char16_t *)r16.data(), r16.size()); out.term = true; } while (0)
+ROUTE(u8_w16_ptr, PUT16(CALLM(ST::utf8_to_wchar<char16_t>, P8));)
+ROUTE(u32_w16_ptr, PUT16(CALLM(ST::utf32_to_wchar<char16_t>, P32));)
+ROUTE(l1_w16_ptr, PUT16(ST::latin_1_to_wchar<char16_t>(P8));)
+ROUTE(w16_8_ptr, out.put(CALLM(ST::wchar_to_utf8<char16_t>, PW16));)
+ROUTE(w16_32_ptr, out.put(CALLM(ST::wchar_to_utf32<char16_t>, PW16));)
+ROUTE(w16_l1_ptr, out.put(mode == 3 ? ST::wchar_to_latin_1<char16_t>(PW16) : ST::wchar_to_latin_1<char16_t>(PW16, MV(mode), in.sub));)
+
 #define R(fn, src, tgt, flags) Route{#fn, ref::src, ref::tgt, (flags), fn}
 #define MD (F_MODE | F_DEFAULT)
 
@@ -422,6 +436,10 @@ static const Route ROUTES[] = {
     R(l1_8_ptr, EL1, T8, F_PRIMARY), R(l1_8_buf, EL1, T8, 0), R(l1_16_ptr, EL1, T16, F_PRIMARY), R(l1_16_buf, EL1, T16, 0),
     R(l1_32_ptr, EL1, T32, F_PRIMARY), R(l1_32_buf, EL1, T32, 0), R(l1_w_ptr, EL1, T32, F_PRIMARY), R(l1_w_buf, EL1, T32, 0),
     R(l1_s_from_ptr, EL1, T8, F_PRIMARY), R(l1_s_from_buf, EL1, T8, 0), R(l1_s_from_cstr, EL1, T8, F_CSTR),
+    // 16-bit wchar_t template variants
+    R(u8_w16_ptr, E8, T16, MD | F_PRIMARY), R(u32_w16_ptr, E32, T16, MD | F_PRIMARY), R(l1_w16_ptr, EL1, T16, F_PRIMARY),
+    R(w16_8_ptr, E16, T8, MD | F_PRIMARY), R(w16_32_ptr, E16, T32, MD | F_PRIMARY),
+    R(w16_l1_ptr, E16, TL1S, MD | F_PRIMARY | F_LATIN1SUB),
 };
 static const size_t NROUTES = sizeof(ROUTES) / sizeof(ROUTES[0]);
 
